@@ -116,6 +116,21 @@ def str_repr(bs, acc, d):
                                       '\n'.join(pre + ["assert bitstring.Bits(str(s)) == s, str(s)"]), d[:60], str(back)[:80])
                     ev = obs(lambda: eval(rp[1], dict(ns)))
                     good = ev[0] == 'ok' and type(ev[1]).__name__ == cls and ev[1].bin == d and getattr(ev[1], 'pos', 0) == pos
+                    if good and back == ('ok', d) and L <= 16:
+                        # the text stays a faithful description whatever is done to objects built from it: build mutable objects from the
+                        # text (constructor, fromstring, eval of the repr), change them in place, and read the text again
+                        def churn():
+                            for m in (bs.BitArray(st[1]), bs.BitArray.fromstring(st[1]), bs.BitStream.fromstring(st[1]), eval(rp[1].replace('Bits(', 'BitArray(').replace('ConstBitStream(', 'BitStream(').replace('BitBitArray(', 'BitArray('), dict(ns))):
+                                m.invert()
+                                m.append('0b1')
+                                m.reverse()
+                            return (bs.Bits(st[1]).bin, eval(rp[1], dict(ns)).bin)
+                        again = obs(churn)
+                        acc.step('str', 1, nontrivial=1, ok=1)
+                        if again != ('ok', (d, d)):
+                            acc.violation('str', 'value', dict(cls=cls, bits=d, lsb0=lsb0, text=st[1][:60], group='text-reuse'),
+                                          '\n'.join(pre + ["t = str(s)", "for m in (bitstring.BitArray(t), bitstring.BitArray.fromstring(t), bitstring.BitStream.fromstring(t)):", "    m.invert(); m.append('0b1'); m.reverse()",
+                                                           "assert bitstring.Bits(t) == s and bitstring.Bits(str(s)) == s, bitstring.Bits(t).bin"]), (d, d), again)
                     if not good:
                         acc.violation('repr', 'value' if ev[0] == 'ok' else 'exc', dict(cls=cls, bits=d if L < 80 else f'{L} bits', pos=pos, lsb0=lsb0, text=rp[1][:60], group=f'lsb0={lsb0}'),
                                       '\n'.join(pre + ["r = eval(repr(s))", f"assert type(r) is type(s) and r == s and getattr(r, 'pos', 0) == {pos}, repr(s)"]), (cls, d[:40], pos), str(ev)[:100])
